@@ -6,44 +6,84 @@
    PARTIAL in one respect, stated openly: values are natural numbers here; that arguments and results of every shape cross
    unchanged (immutables) or as references to the same object (everything else) is C03/C04's theorems plus this check's
    differential run, not part of this model. *)
-(* SCOPE. In the model an exception has one class and a call site either catches every failure of its callee or none. What the
-   model therefore does not say: (a) class-selective catching of exception classes that do not cross unchanged (user-defined classes
-   under the default configuration are replaced by a generic stand-in: C09's gating clause; for C01 that is known finding F46, found
-   by the harness's second phase); (b) that a result/argument of any SHAPE is the same value or a reference to the same object
-   (C03/C04; run differentially here); (c) the machine's waits have no expiry: the real sync_request_timeout (30 s by default) turns a
-   callee that runs longer into a TimeoutError at the caller (timeouts are C15's). *)
+(* SCOPE. An exception in the model is the raiser's number plus the ancestry of its class; a call site catches everything, nothing, or
+   the classes it names (Python's isinstance test on the ancestry). What the connection does to the class of a failure that crosses
+   it is the parameter [xw]: the theorems hold for EVERY xw with the evaluation "seen through the connection" (evalroot xw), and for
+   an xw that reproduces classes (the identity: builtin classes always, user-defined ones when the configuration lets the receiver
+   rebuild them - C09) that evaluation is the one-process evaluation. Under the default configuration a user-defined class arrives as
+   a stand-in: class-selective catching then differs from the local run (c01_selective_catch_refuted_when_class_replaced; known
+   finding F46, produced for real by the harness's second phase, whose trees are now run through the model with the table of the
+   configuration in force). Still outside the model: (b) that a result/argument of any SHAPE is the same value or a reference to the
+   same object (C03/C04; run differentially here); (c) the machine's waits have no expiry: the real sync_request_timeout (30 s by
+   default) turns a callee that runs longer into a TimeoutError at the caller (timeouts are C15's). *)
 From V Require Import lib.Base model.CallTree proofs.CallTreeP proofs.CallTreeTie gen.Gen_calls.
 From Coq Require Import Relations.
 
-(* 1. for every call tree the two-peer machine reaches a quiescent state — both stacks and both inboxes empty — whose result
-      and whose sequence of node invocations are exactly those of the local evaluation *)
+(* 0. for EVERY behaviour xw of the connection towards exception classes and every call tree, the two-peer machine reaches a
+      quiescent state - both stacks and both inboxes empty - whose result and sequence of node invocations are those of the
+      evaluation seen through the connection; every execution that delivers a result delivers that one; none deadlocks or diverges *)
+Theorem c01_machine_is_evaluation_through_connection : forall xw root,
+  (exists f' : side -> peer,
+     steps xw (init root) (mk f' (fst (evalroot xw root)) (Some (snd (evalroot xw root)))) /\
+     stack (f' SA) = [] /\ stack (f' SB) = [] /\ inbox (f' SA) = [] /\ inbox (f' SB) = [])
+  /\ (forall y o, steps xw (init root) y -> result y = Some o -> o = snd (evalroot xw root) /\ log y = fst (evalroot xw root))
+  /\ (forall y, steps xw (init root) y -> result y = None ->
+        (exists y', step xw y y') /\ exists f', steps xw y (mk f' (fst (evalroot xw root)) (Some (snd (evalroot xw root))))).
+Proof.
+  intros xw root. split; [apply distributed_eq_local|split].
+  - intros y o. apply every_execution_is_local.
+  - intros y. apply no_deadlock_before_result.
+Qed.
+Print Assumptions c01_machine_is_evaluation_through_connection.
+
+Section ClassesReproduced.
+Variable xw : list nat -> list nat.
+Hypothesis reproduced : forall m, xw m = m.
+
+(* 1. when the connection reproduces exception classes: for every call tree - any exception classes, any class-selective catching at
+      any level - the two-peer machine reaches a quiescent state whose result and whose sequence of node invocations are exactly
+      those of the local evaluation *)
 Theorem c01_dist_eq_local_partial : forall root, exists f' : side -> peer,
-  steps (init root) (mk f' (fst (eval root)) (Some (snd (eval root)))) /\
+  steps xw (init root) (mk f' (fst (eval root)) (Some (snd (eval root)))) /\
   stack (f' SA) = [] /\ stack (f' SB) = [] /\ inbox (f' SA) = [] /\ inbox (f' SB) = [].
-Proof. exact distributed_eq_local. Qed.
-Print Assumptions c01_dist_eq_local_partial.
+Proof. exact (distributed_eq_local_id xw reproduced). Qed.
 
 (* 2. and that is what EVERY execution does, whatever the interleaving of the two peers: any reachable state that holds a result
       holds the local result, with the invocation log of the local evaluation (each node invoked exactly once, in the same
       order, the exception raised at one level surfacing exactly where the local run catches or propagates it) *)
-Theorem c01_every_execution : forall root y o, steps (init root) y -> result y = Some o ->
+Theorem c01_every_execution : forall root y o, steps xw (init root) y -> result y = Some o ->
   o = snd (eval root) /\ log y = fst (eval root).
-Proof. exact every_execution_is_local. Qed.
-Print Assumptions c01_every_execution.
+Proof. exact (every_execution_is_local_id xw reproduced). Qed.
 
 (* 3. no execution deadlocks or diverges before the result is delivered *)
-Theorem c01_no_deadlock : forall root y, steps (init root) y -> result y = None ->
-  (exists y', step y y') /\ exists f', steps y (mk f' (fst (eval root)) (Some (snd (eval root)))).
-Proof. exact no_deadlock_before_result. Qed.
+Theorem c01_no_deadlock : forall root y, steps xw (init root) y -> result y = None ->
+  (exists y', step xw y y') /\ exists f', steps xw y (mk f' (fst (eval root)) (Some (snd (eval root)))).
+Proof. exact (no_deadlock_before_result_id xw reproduced). Qed.
+End ClassesReproduced.
+Print Assumptions c01_dist_eq_local_partial.
+Print Assumptions c01_every_execution.
 Print Assumptions c01_no_deadlock.
 
+(* 1b. when a class is NOT reproduced (the default configuration replaces a user-defined class by a stand-in derived from Exception):
+      a call site that names the class catches the failure in one process and misses it across the connection. Classes: 0 BaseException,
+      1 Exception, 5 a user-defined subclass of Exception, 8 its stand-in, 9 the stand-in's generic base. *)
+Definition default_table : list (nat * list nat) := [(5, [8; 9; 1; 0])].
+Definition selective : node := Node SA 1 [(Node SB 2 [] [5; 1; 0], CatchOnly [5])] [].
+Theorem c01_selective_catch_refuted_when_class_replaced :
+  eval selective = ([1; 2], Val 1) /\ evalroot (xw_table default_table) selective = ([1; 2], Exc (2, [8; 9; 1; 0]))
+  /\ result (exec (xw_table default_table) 50 (init selective)) = Some (Exc (2, [8; 9; 1; 0]))
+  /\ (* a site naming Exception still catches it *)
+     evalroot (xw_table default_table) (Node SA 1 [(Node SB 2 [] [5; 1; 0], CatchOnly [1])] []) = ([1; 2], Val 1).
+Proof. vm_compute. repeat split. Qed.
+Print Assumptions c01_selective_catch_refuted_when_class_replaced.
+
 (* 4. at most one peer can move at any time, and its move is determined (the machine is sequential, like the local run) *)
-Theorem c01_deterministic : forall root y y1 y2, steps (init root) y -> step y y1 -> step y y2 -> y1 = y2.
-Proof. intros root y y1 y2 H. apply step_functional. eapply tok2_steps; [apply tok2_init|exact H]. Qed.
+Theorem c01_deterministic : forall xw root y y1 y2, steps xw (init root) y -> step xw y y1 -> step xw y y2 -> y1 = y2.
+Proof. intros xw root y y1 y2 H. apply step_functional. eapply tok2_steps; [apply tok2_init|exact H]. Qed.
 Print Assumptions c01_deterministic.
 
 (* 5. the extracted runner used by the harness performs steps of this machine *)
-Theorem c01_runner_is_the_machine : forall fuel y, steps y (exec fuel y).
+Theorem c01_runner_is_the_machine : forall xw fuel y, steps xw y (exec xw fuel y).
 Proof. exact exec_steps. Qed.
 Print Assumptions c01_runner_is_the_machine.
 
@@ -55,11 +95,12 @@ Theorem c01_tie : Gen_calls.sync_request_is_async_value = true /\ Gen_calls.hand
 Proof. exact tie_calls. Qed.
 Print Assumptions c01_tie.
 
-(* non-vacuity: A calls B, which calls back into A twice (one callback raises and is caught on B), then A calls a local child
-   that raises uncaught: the machine's result and log equal the local ones *)
+(* non-vacuity: A calls B, which calls back into A twice (one callback raises a KeyError-like class [4;3;1;0] and is caught on B by a
+   site naming its base 3), then A calls a local child that raises a ValueError-like class uncaught by a site naming 4: the machine's
+   result and log equal the local ones *)
 Definition sample : node :=
-  Node SA 1 [(Node SB 2 [(Node SA 3 [] false, false); (Node SA 4 [(Node SB 5 [] true, false)] false, true)] false, false);
-             (Node SA 6 [] true, false)] false.
-Example c01_sample : let y := exec 200 (init sample) in
-  result y = Some (snd (eval sample)) /\ log y = fst (eval sample) /\ snd (eval sample) = Exc 6 /\ fst (eval sample) = [1; 2; 3; 4; 5; 6].
+  Node SA 1 [(Node SB 2 [(Node SA 3 [] [], CatchOnly []); (Node SA 4 [(Node SB 5 [] [4; 3; 1; 0], CatchOnly [2])] [], CatchOnly [3])] [], CatchOnly []);
+             (Node SA 6 [] [2; 1; 0], CatchOnly [4])] [].
+Example c01_sample : let y := exec (fun m => m) 200 (init sample) in
+  result y = Some (snd (eval sample)) /\ log y = fst (eval sample) /\ snd (eval sample) = Exc (6, [2; 1; 0]) /\ fst (eval sample) = [1; 2; 3; 4; 5; 6].
 Proof. vm_compute. repeat split. Qed.
